@@ -329,6 +329,46 @@ func TestExplore(t *testing.T) {
 		}
 	}
 
+	// 3b. the compliance log's background flush stalled in a slow sink while calls keep logging
+	{
+		nsf := 40
+		if tier == "thorough" {
+			nsf = 400
+		}
+		rngF := rand.New(rand.NewSource(seed + 4242))
+		for i := 0; i < nsf; i++ {
+			// plain log mode: in bulk mode a call whose record fills the block buffer flushes inline and
+			// would itself wait for the stalled sink
+			c := cfg(pDefault, 1+i%2, 5, "plain")
+			sys := &System{C: c}
+			var evs []core.Event
+			rnd := func(n int) {
+				for k := 0; k < n; k++ {
+					op := "alloc"
+					if rngF.Intn(3) == 0 {
+						op = "release"
+					}
+					evs = append(evs, core.Event{"op": op, "sub": 1 + rngF.Intn(5)})
+				}
+			}
+			// records pile up in the buffer, a flush starts and stalls, more calls log, the flush finishes
+			evs = append(evs, core.Event{"op": "flush", "sub": 0, "phase": "hold"})
+			rnd(2 + rngF.Intn(3))
+			evs = append(evs, core.Event{"op": "flush", "sub": 0, "phase": "begin"})
+			rnd(2 + rngF.Intn(4))
+			evs = append(evs, core.Event{"op": "flush", "sub": 0, "phase": "end"})
+			rnd(2)
+			tab, pr := core.Chain(sys, fmt.Sprintf("%s#f%d", c.Name(), i), evs, false)
+			if pr != nil {
+				st.Panics = append(st.Panics, *pr)
+				continue
+			}
+			bundle.Systems = append(bundle.Systems, tab)
+			st.Chains++
+			st.ChainEvents += len(evs)
+		}
+	}
+
 	t.Logf("gated: %d chains at %v", st.GatedChains, time.Since(t0))
 	// 4. the design counterexamples, replayed on the real code
 	for _, sc := range scenarios() {
